@@ -538,3 +538,38 @@ where
         Err(TestError::Abort(reason)) => panic!("proptest aborted: {}", reason.message()),
     }
 }
+
+// ------------------------------------------------------------ traced ops
+
+use crate::shim::{self, Event, World, WorldCfg};
+use std::sync::Arc;
+
+pub fn trace_world(roots: &[&Path]) -> Arc<World> {
+    World::new(WorldCfg { roots: roots.iter().map(|p| p.to_string_lossy().into_owned()).collect(), trace: true, capture_listings: true, ..Default::default() })
+}
+
+/// Runs `f` as participant 0 of `world` (unscheduled) and returns its result with the trace.
+/// Panics inside `f` are caught and reported as Err(message).
+pub fn traced<R>(world: &Arc<World>, f: impl FnOnce() -> R) -> (Result<R, String>, Vec<Event>) {
+    world.take_events();
+    shim::enter_world(world, 0);
+    shim::begin_op(0);
+    let r = std::panic::catch_unwind(std::panic::AssertUnwindSafe(f));
+    shim::leave_world();
+    let ev = world.take_events();
+    let r = r.map_err(|p| {
+        if let Some(s) = p.downcast_ref::<String>() {
+            s.clone()
+        } else if let Some(s) = p.downcast_ref::<&str>() {
+            s.to_string()
+        } else {
+            "panic".to_string()
+        }
+    });
+    (r, ev)
+}
+
+/// Silences the default panic message (panics are expected and caught in several checks).
+pub fn quiet_panics() {
+    std::panic::set_hook(Box::new(|_| {}));
+}
